@@ -2,6 +2,7 @@
 props_build.py — checks of C11 (adjacency builders) and C20 (randgraph).
 """
 import itertools
+import os
 
 import witnesses as W
 from engine import Check
@@ -266,7 +267,59 @@ class C20(Check):
         stats.extra["seeded_runs_whose_draws_could_not_be_replayed_on_the_model"] = getattr(self, "untapped", 0)
         v = [Violation("oracle", m, ["randgraph-direct: " + m]) for m in self._viol[:5]]
         self._viol = []
+        for m in self.large_counts(stats) + self.first_call_of_a_process(stats):
+            v.append(Violation("oracle", m, ["randgraph-direct: " + m]))
         return v
+
+    def large_counts(self, stats):
+        """"for every count >= 1": sparse graphs beyond a thousand vertices, judged directly (no model replay)"""
+        import random as _random
+        from edgegraph.builder import randgraph as rgmod
+        out, n = [], 0
+        for count, conn in ((1001, 0.002), (1500, 0.001), (2049, 0.0005)):
+            for c in ("D", "UU"):
+                seed = 77 + count
+                _random.seed(seed)
+                try:
+                    u = rgmod.randgraph(count, LCLS[c], conn, True)
+                except Exception as exc:  # noqa: BLE001
+                    out.append("randgraph(count=%d, edge=%s, connectivity=%s, ensurelink=True) under random.seed(%d) raised %s: %s" % (
+                        count, c, conn, seed, type(exc).__name__, exc))
+                    continue
+                n += 1
+                m = self.judge(u, count, LCLS[c], True)
+                if m:
+                    out.append("randgraph(count=%d, edge=%s, connectivity=%s): %s" % (count, c, conn, m))
+        stats.extra["large_counts_judged"] = n
+        return out[:2]
+
+    def first_call_of_a_process(self, stats):
+        """reproducibility when the seeded call is the FIRST thing a process does with the library (nothing has been
+        constructed before it): a fresh interpreter runs the same seeded call twice and prints both shapes"""
+        import subprocess
+        import sys
+        code = (
+            "import sys, random\n"
+            "sys.path.insert(0, %r)\n"
+            "from edgegraph.structure import DirectedEdge\n"
+            "from edgegraph.builder import randgraph\n"
+            "def shape(u):\n"
+            "    return [(v.i, [tuple(getattr(e, 'i', None) for e in l.vertices) for l in v.links]) for v in u.vertices]\n"
+            "ok = True\n"
+            "for seed in (7, 99, 20260930):\n"
+            "    random.seed(seed); a = randgraph.randgraph(15, DirectedEdge, None, True)\n"
+            "    random.seed(seed); b = randgraph.randgraph(15, DirectedEdge, None, True)\n"
+            "    ok = ok and shape(a) == shape(b)\n"
+            "print(ok)\n"
+        ) % os.environ.get("EG_REPO", "/repo")
+        pr = subprocess.run([sys.executable, "-c", code], stdout=subprocess.PIPE, stderr=subprocess.PIPE, check=False)
+        stats.extra["fresh_process_reproducibility_probe"] = pr.stdout.decode().strip()
+        if pr.returncode != 0:
+            return ["a fresh interpreter failed on randgraph(15, DirectedEdge, None, True): " + pr.stderr.decode()[-300:]]
+        if pr.stdout.decode().strip() != "True":
+            return ["in a fresh interpreter whose first use of the library is the seeded call, random.seed(s); randgraph(15, DirectedEdge, None, True) "
+                    "run twice gives different graphs (s in 7, 99, 20260930)"]
+        return []
 
     def search(self, tier, rng, real, v):
         yield from self.batches("quick", rng, real)
